@@ -86,12 +86,18 @@ def _case(draw: Any, args: dict) -> dict:
         params = []
         docparams = []
         fslots = {"params": {}, "result": None}
-        for _ in range(draw(st.integers(1, 4))):
-            pn = namer.fresh("p")
+        n_params = draw(st.integers(1, 4))
+        # half of the signatures take their parameter names from a pool shared by all functions of the package, so the
+        # same name occurs elsewhere with other hint / docstring types
+        shared = draw(st.permutations(["x", "y", "data", "value", "n", "flag", "items", "name"]))[:n_params] if draw(st.booleans()) else None
+        for i_p in range(n_params):
+            pn = shared[i_p] if shared else namer.fresh("p")
             hint, doc = draw(_slot())
             params.append(gt.param(pn, "pos", hint, None))
             docparams.append((pn, doc, doc is not None or draw(st.booleans())))
             fslots["params"][pn] = [hint, doc]
+        if draw(st.booleans()):
+            docparams = [docparams[i] for i in draw(st.permutations(range(len(docparams))))]  # documented in another order
         ret = None
         result = None
         multi = None
